@@ -75,6 +75,14 @@ def run_case(case, tier):
                 recs = recs + [pdbio.raw("TER")] + frag
             else:
                 recs = recs + frag
+            if case["frag"].startswith("ion:") and rng.random() < 0.5:
+                # a binuclear / trinuclear site: further ions of the same kind in the same chain
+                for extra_i in range(rng.choice((1, 2))):
+                    f2, _e, _d = fragments.place_near(recs, case["frag"], rng, anchor=anchor, dist_A=rng.choice((2.9, 3.5, 4.5, 6.0)),
+                                                      resnum=901 + extra_i, min_clear_A=2.6)
+                    if f2:
+                        recs = recs + f2
+                        classes.append("several-ions-of-one-kind")
             desc.update({"frag": case["frag"], "distance": dist, "anchor": anchor.text()[12:27] if anchor else None})
     opts = []
     if rng.random() < 0.35:
